@@ -66,7 +66,8 @@ static std::string judge(Reporter& rep, const Paths& in, const Params& q, const 
   auto payload = [&](const P& c, int& a, int& b, bool& skip) { ld mi, mo; classify(c, mi, mo); a = mi > 0 ? 1 : 0; b = 0; skip = (mi <= 0 && mo <= 0); };
   Box g = bbox(in); i64 growby = (i64)std::ceil((double)(k * ad + tol)) + 6;
   g.x0 -= growby; g.y0 -= growby; g.x1 += growby; g.y1 += growby;
-  RTree tree = rtree_build(g, S, 1, margin, payload);
+  i64 Hmin = 1; { i128 ext = std::max((i128)g.x1 - g.x0, (i128)g.y1 - g.y0) * S; while ((i128)Hmin * 4096 < ext) Hmin *= 2; }   // leaf size grows with the extent (1 for the board scopes)
+  RTree tree = rtree_build(g, S, Hmin, margin, payload);
   RWitness w; RStats st;
   bool good = rtree_check(tree, scaled(sol, S), [&](const RCell& c) { return c.a ? sgn : 0; }, margin, payload, w, st);
   rep.add("tree_cells", tree.cells.size()); rep.add("exact_point_evals", st.evals); rep.add("free_cells_decided", st.decided_free); rep.add("cells_refined", st.refined);
@@ -99,6 +100,39 @@ int main(int argc, char** argv) {
     printf("violations: %llu\n", (unsigned long long)rep.nviol);
     for (auto& x : rep.viols) printf("  %s %s: %s\n", x.prop.c_str(), x.tag.c_str(), x.detail.c_str());
     return rep.nviol ? 1 : 0;
+  }
+  if (a.opt("family", "board") == "curves") {
+    // finely sampled convex curves (radius 1600..3200, turning angle per vertex 0.5..1.5 degrees, i.e. far below the library's "almost straight" shortcuts), solid and as
+    // a hole in a square, offset by less and by more than their radius: a shrink beyond the inradius must leave nothing, an inflated hole closes
+    struct Shape { const char* name; Path p; i64 r; };
+    std::vector<Shape> shapes;
+    auto ellipse = [](i64 cx, i64 cy, i64 rx, i64 ry, int n) { Path p; for (int i = 0; i < n; ++i) { long double t = 2 * 3.14159265358979323846L * i / n; P v{cx + (i64)llroundl(rx * cosl(t)), cy + (i64)llroundl(ry * sinl(t))}; if (p.empty() || !(p.back().x == v.x && p.back().y == v.y)) p.push_back(v); } return p; };
+    i64 U = a.opti("unit", 2000);   // radius of the disc; vertex rounding perturbs the turning angles by about +-(N / (12 U)) degrees
+    std::vector<int> ns = a.thorough() ? std::vector<int>{240, 360} : std::vector<int>{360};
+    for (int n : ns) shapes.push_back({"disc", ellipse(3 * U, 3 * U, U, U, n), U});
+    shapes.push_back({"ellipse", ellipse(3 * U, 3 * U, U * 8 / 5, U * 4 / 5, 360), U * 4 / 5});
+    std::vector<std::pair<Paths, double>> jobs;   // (input, delta)
+    for (auto& sh : shapes) {
+      Path sq = {{U / 2, U / 2}, {U * 11 / 2, U / 2}, {U * 11 / 2, U * 11 / 2}, {U / 2, U * 11 / 2}};   // positive in the library's default convention
+      Path cw = area2(sh.p) > 0 ? reversed(sh.p) : sh.p, ccw = reversed(cw);
+      for (double f : {0.3, 0.9, 1.1, 1.5}) {
+        jobs.push_back({Paths{ccw}, -f * sh.r}); jobs.push_back({Paths{cw}, -f * sh.r});          // solid curve shrunk (either orientation convention)
+        jobs.push_back({Paths{sq, cw}, f * sh.r}); jobs.push_back({Paths{reversed(sq), ccw}, f * sh.r});   // curve as a hole, inflated
+      }
+      jobs.push_back({Paths{ccw}, 0.5 * sh.r});
+    }
+    std::vector<Params> pl;
+    for (int rs = 0; rs < 2; ++rs) { pl.push_back({0, 2, 2.0, 0.0, rs != 0}); pl.push_back({0, 2, 2.0, 0.25, rs != 0}); pl.push_back({0, 3, 2.0, 0.0, rs != 0}); pl.push_back({0, 3, 4.0, 0.0, rs != 0}); pl.push_back({0, 0, 2.0, 0.0, rs != 0}); if (a.thorough() && !rs) pl.push_back({0, 1, 2.0, 0.0, false}); }   // (bevel joins: the per-edge oracle costs ~40 s per case here; thorough tier only)
+    u64 idx = 0; bool done = true;
+    for (auto& jb : jobs) for (auto q : pl) {
+      if (!rep.mine(idx++)) continue;
+      if (rep.out_of_time()) { done = false; break; }
+      q.delta = jb.second; check_case(rep, jb.first, q, S); rep.add("inputs");
+    }
+    rep.sample("P=" + pstr(jobs[0].first));
+    if (done) rep.bounds_completed.push_back("sampled curves: " + std::to_string(shapes.size()) + " shapes, solid and as a hole, offsets 0.3/0.9/1.1/1.5 x radius x " + std::to_string(pl.size()) + " parameter sets");
+    rep.write();
+    return 0;
   }
   int k = (int)a.opti("k", 6), nmax = (int)a.opti("nmax", 4); bool holes = a.opti("holes", 1) != 0;
   auto PS = board_PS(a.seed);
